@@ -27,7 +27,7 @@ C30 = dict(
                "add_global / add_local_memory / add_data / add_export append exactly one item and return its position, lifted over histories of any length by induction; mod_global_init_expr changes exactly one "
                "initialiser (state and emission level); every data segment / export / global / memory of the model's output is the stored request; on every freshly parsed module add_global (and any sequence of add_global with constant / ref.null initialisers) yields the old module plus exactly the requested globals, ids consecutive and mapped to themselves; agree is equality, hence an added data segment is in the "
                "*observed* output at the returned id with exactly the requested bytes for every history. Partial for the index-space part (returned ids designate the items after imports are added / entities deleted): "
-               "decided per history in Coq on the decoded real output by the handle specification; known classes D06, D24, 300 (D03 -- global exports copied instead of re-indexed -- is repaired; its former witness is the positive example C30_former_D03_witness_holds).",
+               "decided per history in Coq on the decoded real output by the handle specification; known classes D24, 300 (D03 -- global exports copied instead of re-indexed -- and D06 -- a deleted added import stayed in the index space -- are repaired; their former witnesses are the positive examples C30_former_D03_witness_holds / C30_former_D06_witness_holds).",
     level_note=NOTE, trusted_base=TB,
     technique="Coq theorems over a hand-written model + independent executable specification evaluated in Coq on the real decoded output + refutation witnesses",
     design_ref="5/C30",
@@ -59,7 +59,7 @@ C12 = dict(
                "(from the C14 theorems); the type stored at the function's type id is the requested signature for every hash order of the parsed types (from the C13 dedup theorems); one build appends exactly one function "
                "item whose id is returned; the model's function/code sections are the stored payloads, so a built function is emitted with exactly the requested types, locals and body ++ [end] wherever the index space puts "
                "it, and -- agree being equality -- so is it in the observed output; D08 as a theorem (finish_module succeeds iff the module is balanced; after a conversion every later build panics). Partial for the index-space "
-               "part (returned id and name refer to the function after import additions / deletions): decided per history in Coq on the decoded real output; known classes D08, D02, D06.",
+               "part (returned id and name refer to the function after import additions / deletions): decided per history in Coq on the decoded real output; known classes D08, D02 (D06 -- a deleted added import stayed in the index space -- is repaired).",
     level_note=NOTE, trusted_base=TB12,
     technique="Coq theorems over a hand-written model (reusing the C13 / C14 developments) + independent executable specification evaluated in Coq on the real decoded output + refutation witness",
     design_ref="5/C12", harness_prop="C12",
